@@ -65,6 +65,6 @@ TABLE = [
     ("CENSUS_V5EF_PANICS", V5EF, r"(?:\.unwrap\(\)|\.expect\(|unreachable!|(?<!debug_)assert(?:_eq|_ne)?!|panic!)" + PROD, "count"),
     ("CENSUS_V5_DESER_UNWRAPS", V5, r"data\[\d+\.\.\d+\]\.try_into\(\)\.unwrap\(\)", "count"),
     ("CENSUS_MOD_DESER_UNWRAPS", MOD, r"data\[\d+\.\.\d+\]\.try_into\(\)\.unwrap\(\)", "count"),
-    ("CENSUS_MOD_UNREACHABLE", MOD, r"unreachable!" + PROD, "count"),
+    ("CENSUS_MOD_UNREACHABLE", MOD, r"unreachable!\(\)(?=.*\n#\[cfg\(test\)\]\n#\[expect\()", "count"),
     ("CENSUS_KS_DECODE_UNWRAPS", KS, r"try_from\((?:s2c|c2s)\)\.unwrap\(\)", "count"),
 ]
